@@ -118,3 +118,81 @@ def parse(text):
 
 def is_sql(text):
     return bool(re.match(r"^\s*(CREATE|INSERT|DELETE|UPDATE|SELECT)\s", text, flags=re.I))
+
+
+def eval_where(st, row, bound, distinct=None):
+    """truth of a statement's WHERE clause for one row, in SQL's three-valued logic folded to {True, False, None=unknown}.
+    row: column -> None (NULL) | a python constant | ("sym", name) an opaque non-NULL value;  bound: values for the `?`
+    placeholders of the WHERE clause, in order (python constants, None, or ("sym", name)).  A statement without a WHERE
+    clause matches every row.  Comparisons of two different opaque values, or of an opaque value with a constant, are
+    unknown unless they are the same symbol (then equal)."""
+    bound = list(bound)
+    if not st.where:
+        return True
+    wrapped = {c_: (f_, d_) for (c_, f_, d_) in getattr(st, "where_wrapped", [])}
+
+    def operand(text):
+        t = text.strip()
+        if t == "?":
+            return bound.pop(0) if bound else ("unk",)
+        if t.upper() == "NULL":
+            return None
+        try:
+            return int(t)
+        except ValueError:
+            pass
+        try:
+            return float(t)
+        except ValueError:
+            pass
+        if len(t) >= 2 and t[0] == t[-1] and t[0] in "'\"":
+            return t[1:-1]
+        return ("unk",)
+
+    def eq(a, b):
+        if isinstance(a, tuple) or isinstance(b, tuple):
+            if a == ("unk",) or b == ("unk",):
+                return None
+            for x, y in ((a, b), (b, a)):
+                # an opaque value known to differ from certain constants (a contact's id is never the local row's -1)
+                if isinstance(x, tuple) and x[0] == "sym" and not isinstance(y, tuple) and distinct and y in distinct.get(x[1], ()):
+                    return False
+            if isinstance(a, tuple) and isinstance(b, tuple):
+                return True if a == b else None
+            return None
+        return a == b
+    vals = []
+    for (c_, o, r) in st.where:
+        if c_ is None or c_ not in row:
+            vals.append(None)
+            operand(r) if r.strip() == "?" else None
+            continue
+        v = row[c_]
+        if c_ in wrapped and wrapped[c_][0] in ("coalesce", "ifnull") and v is None:
+            v = operand(wrapped[c_][1])
+        rhs = operand(r)
+        o = o.upper()
+        if o == "IS":
+            vals.append((v is None) if rhs is None else (None if v is None else eq(v, rhs)) if rhs is not None and v is not None else (v is None and rhs is None))
+        elif o == "IS NOT":
+            if rhs is None:
+                vals.append(v is not None)
+            else:
+                e_ = eq(v, rhs) if v is not None else False
+                vals.append(None if e_ is None else not e_)
+        elif v is None or rhs is None:
+            vals.append(False)           # a comparison with NULL is not true
+        elif o == "=":
+            vals.append(eq(v, rhs))
+        elif o in ("!=", "<>"):
+            e_ = eq(v, rhs)
+            vals.append(None if e_ is None else not e_)
+        else:
+            vals.append(None)
+    out = vals[0]
+    for cn, v in zip(st.where_connectors, vals[1:]):
+        if cn == "OR":
+            out = True if (out is True or v is True) else (False if (out is False and v is False) else None)
+        else:
+            out = False if (out is False or v is False) else (True if (out is True and v is True) else None)
+    return out
